@@ -13,6 +13,10 @@
 //	                go/build/constraint: "notconstraint" | "err" | "ok <sexpr> | <tt>"
 //	iswa <line>     IsWaBuild(line): true | false
 //	ev <line> <tags,comma separated or ->   Eval with exactly these tags true: true | false | err..
+//	load <targetOS> <tags> <spec>   the whole file-selection path: writes a module (wa.mod, src/main.wa,
+//	                src/mypkg/base.wa + one file f<i>.wa per constraint line of spec, lines separated by
+//	                0x1e) to a temp dir, loader.LoadProgram for the target/tags, and reports which files
+//	                ended up in the non-main package: "ok f0,f2" | "err <class>" | "loaderr <text>"
 //	skip <cfgOS> <cfgArch> <manifestOS> <tags> <src>   isSkipedAstFile through the loader
 //	                "included|skiped|err <class> | os=<os> arch=<arch> | doc=<hex,..> | comments=<hex,..>"
 package main
@@ -20,7 +24,12 @@ package main
 import (
 	"fmt"
 	"go/build/constraint"
+	"os"
+	"path/filepath"
+	"sort"
 	"strings"
+
+	"wa-lang.org/wa/internal/config"
 
 	"wa-lang.org/wa/internal/loader"
 	"wa-lang.org/wa/internal/loader/buildtag"
@@ -83,6 +92,7 @@ func errClass(err error) string {
 	if i := strings.Index(s, "parsing #wa:build line: "); i >= 0 {
 		s = s[i+len("parsing #wa:build line: "):]
 	}
+	s = strings.TrimRight(s, ") ")
 	switch {
 	case s == "double negation not allowed":
 		return "double-negation"
@@ -90,9 +100,9 @@ func errClass(err error) string {
 		return "missing-close-paren"
 	case s == "unexpected end of expression":
 		return "unexpected-end"
-	case strings.HasPrefix(s, "unexpected token "):
+	case strings.HasPrefix(s, "unexpected token"):
 		return "unexpected-token"
-	case strings.HasPrefix(s, "invalid syntax at "):
+	case strings.HasPrefix(s, "invalid syntax at"):
 		return "invalid-syntax"
 	case s == "not a build constraint":
 		return "notconstraint"
@@ -169,6 +179,19 @@ func main() {
 				}
 			}
 			return fmt.Sprint(x.Eval(func(t string) bool { return set[t] }))
+		case "load":
+			if len(f) != 4 {
+				return "bad-op"
+			}
+			var tags []string
+			if f[2] != "-" {
+				tags = strings.Split(f[2], ",")
+			}
+			tos := f[1]
+			if tos == "-" {
+				tos = ""
+			}
+			return loadModule(tos, tags, strings.Split(arg(f[3]), "\x1e"))
 		case "skip":
 			if len(f) != 6 {
 				return "bad-op"
@@ -198,4 +221,47 @@ func main() {
 		}
 		return "bad-op"
 	})
+}
+
+// loadModule drives loader.LoadProgram on a generated module; see the protocol comment.
+func loadModule(targetOS string, tags []string, lines []string) string {
+	root, err := os.MkdirTemp("", "waverif.c24.")
+	if err != nil {
+		return "loaderr " + err.Error()
+	}
+	defer os.RemoveAll(root)
+	write := func(rel, data string) {
+		path := filepath.Join(root, filepath.FromSlash(rel))
+		os.MkdirAll(filepath.Dir(path), 0777)
+		os.WriteFile(path, []byte(data), 0666)
+	}
+	write("wa.mod", "name = \"verifapp\"\npkgpath = \"verifapp\"\nversion = \"0.0.1\"\n")
+	write("src/main.wa", "import \"verifapp/mypkg\"\n\nfunc main {\n\tprintln(mypkg.Base())\n}\n")
+	write("src/mypkg/base.wa", "func Base => int {\n\treturn 1\n}\n")
+	for i, l := range lines {
+		write(fmt.Sprintf("src/mypkg/f%d.wa", i), fmt.Sprintf("// generated\n\n%s\n\nfunc F%d => int {\n\treturn %d\n}\n", l, i, i))
+	}
+	cfg := config.DefaultConfig()
+	cfg.TargetOS = targetOS
+	cfg.BuilgTags = append([]string{}, tags...)
+	cfg.WaSizes.MaxAlign = 8
+	cfg.WaSizes.WordSize = 4
+	prog, err := loader.LoadProgram(cfg, root)
+	if err != nil {
+		if strings.Contains(err.Error(), "parsing #wa:build line: ") {
+			return "err " + errClass(err)
+		}
+		return "loaderr " + strings.ReplaceAll(err.Error(), "\n", " ")
+	}
+	pkg := prog.Pkgs["verifapp/mypkg"]
+	if pkg == nil {
+		return "loaderr package not loaded"
+	}
+	var names []string
+	for _, af := range pkg.Files {
+		n := filepath.Base(prog.Fset.Position(af.Pos()).Filename)
+		names = append(names, strings.TrimSuffix(n, ".wa"))
+	}
+	sort.Strings(names)
+	return "ok " + strings.Join(names, ",")
 }
